@@ -1,5 +1,5 @@
 """Property -> rule list. Each rule: (id, text, function(ctx, report))."""
-import rules_cmd, rules_expire, rules_conn, rules_auth, rules_tx, rules_db, rules_zset, rules_rdb, rules_aof, rules_block, rules_pubsub, rules_stream, rules_scan, rules_panic, rules_lua, rules_int, rules_coll
+import rules_order, rules_cmd, rules_expire, rules_conn, rules_auth, rules_tx, rules_db, rules_zset, rules_rdb, rules_aof, rules_block, rules_pubsub, rules_stream, rules_scan, rules_panic, rules_lua, rules_int, rules_coll
 from shared import SERVER
 
 
@@ -14,6 +14,7 @@ def _c01():
         ("R-ATOMIC", "no validation refusal is reachable after a dataset mutation (handlers: after the success continuation of a mutating engine call; engine methods: after a DATA-MUT site)",
          rules_cmd.rule_atomic("C01")),
         ("R-INT-CANON", "integers stored as text are read through the std i64 parser plus a round-trip (canonical form, whole i64 range); the INCR family takes the stored number from such a parser", rules_int.make_int_canon("C01")),
+        ("R-EXPIRE-KEEP", "in the engine methods behind in-place modifying commands a freshly constructed StoredValue (no TTL) enters the key space only where the key has no live entry: the TTL survives in-place modifications", rules_expire.rule_keep),
     ]
 
 
@@ -24,6 +25,7 @@ def _c02():
         ("R-EXPIRE-X2", "the sweeper removes a key only under a dominating is_expired() test of the stored value, inside the same write-lock scope", rules_expire.rule_x2),
         ("R-EXPIRE-X3", "deadline written only by the ValueMetadata setters; TTL setters are called only from dedicated TTL functions; every insert stores a fresh StoredValue or (RENAME) the one it removed", rules_expire.rule_x3),
         ("R-EXPIRE-X4", "a function that stores/clears a deadline also updates the expiry index", rules_expire.rule_x4),
+        ("R-EXPIRE-KEEP", "in the engine methods behind in-place modifying commands a freshly constructed StoredValue (no TTL) enters the key space only where the key has no live entry: the TTL survives in-place modifications", rules_expire.rule_keep),
         ("R-EXPIRE-INDEXREAD", "deadlines that are reported, persisted or acted on come from the stored value's metadata: only the sweeper reads the (possibly stale) expiry index", rules_expire.rule_index_read),
         ("R-RDB-CLOCK", "a remaining TTL is converted to the absolute deadline in the dump (and back at load) with a clock value read in the same function invocation, not one cached earlier", rules_rdb.rule_deadline_clock),
     ]
@@ -36,6 +38,7 @@ def _c04():
         ("R-NAN", "every score handed to SkipList::insert in the engine is dominated by an is_nan()/is_finite() refusal of that very value", rules_zset.rule_nan),
         ("R-SKIP-PAIR", "key index, node links and length stay in step: index insert -> node link, re-score unlinks before linking, index remove -> unlink, length written only by link/unlink", rules_zset.rule_skip_pair),
         ("R-EMPTY", "removing the last member removes the key", rules_cmd.rule_empty),
+        ("R-ZSET-LATEST", "an engine method that writes scores returns success only after handing the score to SkipList::insert, or after an exact == showed the stored score already equals it (each member holds its latest score)", rules_zset.rule_latest),
         ("R-SKIP-CMP", "both comparators are the lexicographic (score, member) order: partial_cmp(first score, second score), Equal arm = Ord::cmp(first member, second member), other arms = partial_cmp's own result", rules_zset.rule_skip_cmp),
         ("R-SKIP-SEARCH", "the three search loops (link position, unlink position, rank) agree: full comparator on (next.value, next.key) against the sought pair, cursor advanced on Less only", rules_zset.rule_skip_search),
         ("R-SKIP-KEYSTORE", "the ordering key of a linked node is not overwritten in place on a path where a bare score comparison admits a tie (or without any comparison); after the index is updated every path links a node", rules_zset.rule_skip_keystore),
@@ -49,6 +52,7 @@ def _c05():
         ("R-REPLY1", "each iteration of the frame loop pushes exactly one reply; the loop is not left mid-batch", rules_conn.rule_reply1),
         ("R-PARSEERR", "a protocol error from parse_frame is queued/sent as an error reply on every path (no silent break)", rules_conn.rule_parseerr),
         ("R-PARSE-DRAIN", "the loop draining the parser ends only when parse_frame reports an incomplete buffer or an error (no frame budget that strands complete commands until the next read)", rules_conn.rule_parse_drain),
+        ("R-CODEC-SHORTTEST", "a non-panicking content test on an open-ended sub-slice of the input whose negative outcome leads to a protocol error is dominated by a length test covering the bytes examined (no error decided from bytes that have not arrived)", rules_conn.rule_codec_shorttest),
         ("R-PARSEERR-CLOSE", "the consumer of queued protocol errors pushes an error reply and requests the connection to be closed", rules_conn.rule_parseerr_close),
         ("R-CRLF", "line-framed reply variants write payload bytes only through a CR/LF-inspecting function; bulk strings write len() of the slice they write", rules_conn.rule_crlf),
         ("R-TXNORESP", "nothing reachable from EXEC can yield NoResponse or register a blocked client", rules_conn.rule_txnoresp),
@@ -147,6 +151,8 @@ def _c15():
         ("R-ST-KEEPKEY", "adding to, deleting from or trimming a stream never removes its key (the last-ID state lives in the value)", rules_stream.rule_keepkey),
         ("R-ST-IDPARSE", "the stream-ID parser accumulates with checked arithmetic (no wrapping of out-of-range IDs)", rules_stream.rule_idparse),
         ("R-ST-EXHAUST", "XADD * on an existing stream is guarded by a last-ID == max-ID refusal", rules_stream.rule_exhaust),
+        ("R-SORTED-SEARCH", "a sequence that some function looks up by binary search is kept sorted by every function that grows it (order test of the element, insert at the searched position, or a sort on every path)", rules_order.rule_sorted_search(("storage::stream::", "storage::consumer_groups::"))),
+        ("R-SEQ-WHOLE", "a reader of a ring buffer's as_slices() uses both halves (or makes the deque contiguous first): range reads see every present entry", rules_order.rule_whole_view(("storage::",))),
         ("R-PANIC", "stream-ID arithmetic on client-chosen IDs (incl. IDs read back from the stream's atomics) is bounded or checked", rules_panic.make_taint_rule({"client"}, ("arith",), "stream id arithmetic", scope_prefix=("storage::stream::", "storage::consumer_groups::"))),
     ]
 
@@ -160,6 +166,7 @@ def _c16():
         ("R-CG-START", "the start position given at creation initialises the delivery cursor", rules_stream.rule_cg_start),
         ("R-ATOMIC", "group administration refused for a bad argument has no effect (no refusal after a mutation)", rules_cmd.rule_atomic("C16")),
         ("R-CG-IDLE", "idle times (claim thresholds, XPENDING idle column) are computed from last_delivery, never from delivered_at", rules_stream.rule_cg_idle),
+        ("R-SORTED-SEARCH", "a sequence that some function looks up by binary search is kept sorted by every function that grows it (order test of the element, insert at the searched position, or a sort on every path)", rules_order.rule_sorted_search(("storage::stream::", "storage::consumer_groups::"))),
         ("R-CG-BOUNDS", "XPENDING's cached ID bounds are derived from the pending index (recomputed, min/max with the old bound, or stored under a comparison), and every index mutation updates them on every path", rules_stream.rule_cg_bounds),
     ]
 
@@ -177,6 +184,7 @@ def _c06():
         ("R-PANIC", "client- and wire-controlled numbers reach panicking arithmetic, indexing, float->Duration and clock arithmetic only when bounded on every path (taint with direction-aware dominating comparisons)", rules_panic.make_taint_rule({"client", "wire"}, rules_panic.PANIC_KINDS, "client+wire panic sinks")),
         ("R-ALLOC", "memory is reserved according to a client- or wire-controlled number only when bounded by what was received / is present", rules_panic.make_taint_rule({"client", "wire"}, ("alloc",), "client+wire allocation sinks")),
         ("R-RECURSE", "client-driven recursion (RESP parser) carries a bounded depth", rules_panic.rule_recurse),
+        ("R-DEADLINE-BOUND", "stored deadlines are at most a constant away from now: every Instant + Duration in the modules that own deadlines bounds the Duration by a constant first (the dump writers and TTL replies rely on it)", rules_panic.rule_deadline_bound),
         ("R-HANG", "the command thread never sleeps for a client-controlled time; scripts run under an execution bound", rules_panic.make_taint_rule({"client", "wire"}, ("sleep",), "client-controlled sleeps")),
         ("R-HANG-LUA", "before the chunk is run, eval installs an instruction hook whose callback can return Err, decided by a clock or counter", rules_panic.rule_hang),
         ("R-LOCK-L1", "no lock is re-acquired (directly or through a call) while a guard of the same lock is held", rules_panic.rule_lock_l1),
@@ -245,6 +253,7 @@ def _c20():
         ("R-CODEC-POS", "the incremental parser advances its position only on the Ok(Some) edge (restart-from-frame-start, the mechanism behind chunking independence)", rules_conn.rule_codec_pos),
         ("R-CRLF", "line-framed variants cannot be broken by payload bytes", rules_conn.rule_crlf),
         ("R-CODEC-DECBUF", "a stack buffer that a digit loop fills with a 64-bit integer's decimal form has at least 20 bytes", rules_conn.rule_codec_decbuf),
+        ("R-CODEC-SHORTTEST", "a non-panicking content test on an open-ended sub-slice of the input whose negative outcome leads to a protocol error is dominated by a length test covering the bytes examined (no error decided from bytes that have not arrived)", rules_conn.rule_codec_shorttest),
         ("R-CODEC-INCOMPLETE", "an aggregate parser answers `need more data` only when a sub-parser did, or from a per-element length estimate of at most 3 bytes (the shortest RESP element)", rules_conn.rule_codec_incomplete),
     ]
 
